@@ -16,7 +16,7 @@ LEVEL_TEXT = ('Runtime history checking under controlled schedules: for every so
               'failing position, one run per single-delay schedule (every (thread role, function, line, occurrence<=3) point of '
               'prefetch_iterator.py outside a held lock; all pairs in the thorough tier) plus seeded random yield injection; the '
               'consumer-side history is checked against the source prefix and a deadlock is decided by thread state, not by a '
-              'timeout. Value helpers are compared with NumPy under 1,2,3,4,8 host devices.')
+              'timeout. Value helpers are compared with NumPy under 1,2,3,4,8 host devices (scan_in_dim over positive and negative axis tuples).')
 LEVEL_NOTE = ('Schedules are explored at statement granularity of one file under the GIL (the granularity CPython interleaves at); '
               'the traced Condition/Thread shim and jax device_put_sharded/replicated compat drop-ins are trusted.')
 TECHNIQUE = 'runtime monitoring: client-boundary history checker + delay-bounded schedule enumeration + state-based deadlock detector; NumPy value oracles'
@@ -398,12 +398,20 @@ def run_values(ctx):
     axes = [a for r in (1, 2, 3) for a in itertools.permutations(range(nd), r) if r <= nd]
     if quick:
       axes = axes[::2]
-    for axis in axes:
+    # the same axis tuples with some entries written as negative indices (seeded change C20-b): every tuple gets one signed twin,
+    # the thorough tier every sign pattern
+    signed = []
+    for j, ax in enumerate(axes):
+      masks = range(1, 2 ** len(ax)) if not quick else [1 + (j * 5 + len(shape)) % (2 ** len(ax) - 1)]
+      for mask in masks:
+        signed.append(tuple(a - nd if (mask >> i) & 1 else a for i, a in enumerate(ax)))
+    for axis_given in axes + signed:
+      axis = tuple(a % nd for a in axis_given)
       for keepdims in (False, True):
         for unroll in ((1,), (2,)) if not quick else ((1,),) if (k % 3) else ((1,), (2,)):
           k += 1
-          desc = dict(helper='scan_in_dim', shape=shape, axis=axis, keepdims=keepdims, unroll=unroll)
-          with ctx.case('values', 93000 + k, desc, nontrivial=len(axis) >= 2 or keepdims):
+          desc = dict(helper='scan_in_dim', shape=shape, axis=axis_given, keepdims=keepdims, unroll=unroll)
+          with ctx.case('values', 93000 + k, desc, nontrivial=len(axis) >= 2 or keepdims or min(axis_given) < 0):
             rng = np.random.default_rng(ctx.rng('scan', k).getrandbits(32))
             xs = rng.normal(size=shape).astype(np.float32)
             rest = tuple(s for i, s in enumerate(shape) if i not in axis)
@@ -414,7 +422,7 @@ def run_values(ctx):
               c2 = c * 0.5 + x
               return c2, c2 * 3.0 - x
 
-            c, ys = jax_utils.scan_in_dim(body, jnp.asarray(init), jnp.asarray(xs), axis=axis, unroll=unroll, keepdims=keepdims)
+            c, ys = jax_utils.scan_in_dim(body, jnp.asarray(init), jnp.asarray(xs), axis=axis_given, unroll=unroll, keepdims=keepdims)
             ctx.op('scan_in_dim')
             # reference: nested python loops in the order of `axis`
             cr = init.astype(np.float64)
